@@ -113,5 +113,34 @@ Definition agrees_with (published : list (string * list path)) (n : string) : bo
   | _, _ => false
   end.
 
+(* element by element: the server element held in Go field path P and the published element held in the
+   same Go field path carry the same JSON path (names exchanged within a tag keep the *set* of paths) *)
+Definition server_fields : list (string * list (string * path)) :=
+  map (fun fd => (snd (fst (fst fd)), map (fun e => (e_path e, e_json e)) (t_elems (snd fd)))) (combine msg_fields tags).
+
+Definition same_field_same_name (published : list (string * path)) (pj : string * path) : bool :=
+  match find (fun qk => String.eqb (fst qk) (fst pj)) published with
+  | Some qk => path_eqb (snd qk) (snd pj)
+  | None => true
+  end.
+
+Definition recorded_at (except : list (string * string)) (n gopath : string) : bool :=
+  existsb (fun tg => String.eqb (fst tg) n && String.eqb (snd tg) gopath) except.
+
+Definition elementwise_agree (except : list (string * string)) (published : list (string * list (string * path))) (n : string) : bool :=
+  match option_map snd (find (fun p => String.eqb (fst p) n) server_fields),
+        option_map snd (find (fun p => String.eqb (fst p) n) published) with
+  | Some a, Some b => forallb (fun pj => recorded_at except n (fst pj) || same_field_same_name b pj) a
+  | _, _ => true
+  end.
+
+(* how many server elements have a published element in the same Go field path (non-vacuity) *)
+Definition shared_fields (published : list (string * list (string * path))) : nat :=
+  fold_right Nat.add 0
+    (map (fun sf => match option_map snd (find (fun p => String.eqb (fst p) (fst sf)) published) with
+                    | Some b => length (filter (fun pj => existsb (fun qk => String.eqb (fst qk) (fst pj)) b) (snd sf))
+                    | None => 0
+                    end) server_fields).
+
 Definition disagreeing (published : list (string * list path)) : list string :=
   filter (fun n => negb (agrees_with published n)) (map fst server_paths).
